@@ -16,10 +16,13 @@
    answers ErrInvalid (= outside the model) as soon as one coordinate of the polygon is not finite.
 
    Undefined behaviour is Crash:
-   * `while (interior_coords.items[0] == coords[0]) ++interior_coords.items;` has no bound: the read
-     that leaves the `coords` allocation is Crash (scan_front on the empty rest);
    * `interior_coords[(uint64_t)(j * frac)]` outside the allocation, or a cast of a value outside
-     [0, 2^64), is Crash.
+     [0, 2^64), is Crash (FractureCutsProofs.fracture_cuts_no_crash: never reached on finite input);
+   * the first scan is bounded since commit e912cb9 (`interior_coords.items < coords + num_points &&`).
+     Before, `while (interior_coords.items[0] == coords[0]) ++interior_coords.items;` had no bound and
+     read past the `coords` allocation when all chosen-axis coordinates were equal: that code is kept
+     as scan_front_unrepaired / fracture_cuts_unrepaired (regression witness
+     fracture_cuts_unrepaired_refuted).
    uint64_t arithmetic is N arithmetic modulo 2^64 (`num_points - (items - coords)`). *)
 Require Import Base Generated Sort.
 From Flocq Require Import Core BinarySingleNaN Binary Bits.
@@ -78,13 +81,22 @@ Definition choose_x_axis (bb : bbox) : bool :=
 
 (* ------------------------------------------------------------------ the two scans *)
 (*  Array<double> interior_coords = {0, 0, coords};
-    while (interior_coords.items[0] == coords[0]) ++interior_coords.items;
-    `l` is what is left of the allocation from interior_coords.items on, `k` = items - coords.
-    No bound in the C++: the read past the last element is Crash. *)
+    while (interior_coords.items < coords + num_points && interior_coords.items[0] == coords[0])
+        ++interior_coords.items;
+    `l` is what is left of the allocation from interior_coords.items on, `k` = items - coords;
+    `l = []` is `interior_coords.items == coords + num_points`: the loop stops there. *)
 Fixpoint scan_front (c0 : dbl) (l : list dbl) (k : N) : outcome N :=
   match l with
-  | [] => Crash
+  | [] => Ok k
   | x :: t => if deq x c0 then scan_front c0 t (k + 1)%N else Ok k
+  end.
+
+(* the loop before commit e912cb9: `while (interior_coords.items[0] == coords[0]) ++interior_coords.items;`
+   No bound: the read past the last element is Crash. *)
+Fixpoint scan_front_unrepaired (c0 : dbl) (l : list dbl) (k : N) : outcome N :=
+  match l with
+  | [] => Crash
+  | x :: t => if deq x c0 then scan_front_unrepaired c0 t (k + 1)%N else Ok k
   end.
 
 (*  while (interior_coords.count > 0 &&
@@ -133,16 +145,19 @@ Definition choose_cuts (c0 clast : dbl) (interior : list dbl) (count num_cuts : 
     (if (count <=? N.of_nat (length interior))%N then Ok (firstn (N.to_nat count) interior) else Crash)
   else cut_loop interior (cut_frac count num_cuts) 1%N (N.to_nat num_cuts).
 
-(* from the sorted coordinates to the cut list *)
-Definition cuts_of_sorted (sorted : list dbl) (num_points num_cuts : N) : outcome (list dbl) :=
+(* from the sorted coordinates to the cut list; `scan` is the first scan (repaired or not) *)
+Definition cuts_of_sorted_with (scan : dbl -> list dbl -> N -> outcome N)
+                               (sorted : list dbl) (num_points num_cuts : N) : outcome (list dbl) :=
   obind (get sorted 0) (fun c0 =>
   obind (get sorted (Z.of_N num_points - 1)) (fun clast =>
-  obind (scan_front c0 sorted 0%N) (fun k =>
+  obind (scan c0 sorted 0%N) (fun k =>
     let interior := skipn (N.to_nat k) sorted in
     (* interior_coords.count = num_points - (interior_coords.items - coords);   (uint64_t) *)
     let count0 := ((num_points + 2 ^ 64 - k) mod 2 ^ 64)%N in
     obind (scan_back (S (length interior)) interior clast count0) (fun count =>
       choose_cuts c0 clast interior count num_cuts)))).
+
+Definition cuts_of_sorted := cuts_of_sorted_with scan_front.
 
 (* ------------------------------------------------------------------ one round of the loop *)
 Inductive cuts_result :=
@@ -154,7 +169,8 @@ Definition pt_finite (p : dpoint) : bool := d_finite (fst p) && d_finite (snd p)
 Definition axis_coords (x_axis : bool) (pts : list dpoint) : list dbl :=
   map (fun p : dpoint => if x_axis then fst p else snd p) pts.
 
-Definition fracture_cuts (max_points : N) (pts : list dpoint) : outcome cuts_result :=
+Definition fracture_cuts_with (scan : dbl -> list dbl -> N -> outcome N)
+                              (max_points : N) (pts : list dpoint) : outcome cuts_result :=
   let num_points := N.of_nat (length pts) in
   if negb (forallb pt_finite pts) then ErrInvalid            (* outside the model *)
   else if (max_points <=? 4)%N then Ok NoCut                 (* if (max_points <= 4) return; *)
@@ -165,8 +181,12 @@ Definition fracture_cuts (max_points : N) (pts : list dpoint) : outcome cuts_res
     let x_axis := choose_x_axis bb in
     let coords := axis_coords x_axis pts in
     obind (Sort.sort dlt_fin coords) (fun sorted =>
-    obind (cuts_of_sorted sorted num_points num_cuts) (fun cuts =>
+    obind (cuts_of_sorted_with scan sorted num_points num_cuts) (fun cuts =>
       Ok (Cuts x_axis cuts))).
+
+Definition fracture_cuts := fracture_cuts_with scan_front.
+(* the code before commit e912cb9 *)
+Definition fracture_cuts_unrepaired := fracture_cuts_with scan_front_unrepaired.
 
 (* text <-> bits for the driver *)
 Definition dbl_of_bits (b : N) : dbl := b64_of_bits (Z.of_N b).
